@@ -23,9 +23,14 @@
 //!                                       channel is busy while it transmits and queues (Queue(None)) what comes then;
 //!                                       a probe logs every start of a transmission (`xmit <src> <dst> <serial>`)
 //!   link <src> <dst> direct             the same without a channel
+//!   ndl base=<k>                        the network is built from an NDL description generated from the `mod` / `link`
+//!                                       lines (`ndl_text`): root `^` = entry type `Top`, which inherits type `Base`
+//!                                       (the first k submodules) and adds the others; flat, channel-less links
 //!   rule <path> start|end|msg:<kind> <step>...      first matching rule wins
 //!   task <tag> <step>...
 //!   step = draw | draw32 | send:<dst>:<kind>[:<delay>] (send / send_in) | sched:<delay>:<kind> | spawn:<task>
+//!        | schedr:<kind>                             x = random::<u64>(); schedule_in(.., x % 8 ns)
+//!        | spin:<n>:<every>                          n times yield_now().await, a draw after every <every>-th (tasks)
 //!        | sig:<name> | wait:<name>                  tokio Semaphore of the module: add_permits(1) / acquire().await (tasks)
 //!        | sleep:<ns> | sel:<ns>,<ns>[,<ns>]        (spawn: handlers only; sleep, sel: tasks only)
 //!        | shut | restart:<ns>                       `current().shutdown()` / `shutdow_and_restart_in(ns)`, from
@@ -63,6 +68,8 @@ enum Step {
     Send(String, u16, u64),
     Sig(String),
     Wait(String),
+    Schedr(u16),
+    Spin(u64, u64),
     Sched(u64, u16),
     Spawn(String),
     Sleep(u64),
@@ -92,6 +99,8 @@ struct Net {
     links: Vec<Link>,
     rules: Vec<(String, On, Vec<Step>)>,
     tasks: Vec<(String, Vec<Step>)>,
+    /// `ndl base=<k>`: the network is built from a generated NDL description (see `ndl_text`)
+    ndl: Option<usize>,
 }
 
 fn parse_step(t: &str) -> Option<Step> {
@@ -101,6 +110,14 @@ fn parse_step(t: &str) -> Option<Step> {
         ["draw32"] => Some(Step::Draw32),
         ["send", dst, k] => Some(Step::Send(dst.to_string(), k.parse().ok()?, 0)),
         ["send", dst, k, d] => Some(Step::Send(dst.to_string(), k.parse().ok()?, d.parse().ok()?)),
+        ["schedr", k] => Some(Step::Schedr(k.parse().ok()?)),
+        ["spin", n, e] => {
+            let e: u64 = e.parse().ok()?;
+            if e == 0 {
+                return None;
+            }
+            Some(Step::Spin(n.parse().ok()?, e))
+        }
         ["sig", n] => Some(Step::Sig(n.to_string())),
         ["wait", n] => Some(Step::Wait(n.to_string())),
         ["sched", d, k] => Some(Step::Sched(d.parse().ok()?, k.parse().ok()?)),
@@ -153,6 +170,18 @@ fn parse(body: &[String]) -> Net {
             _ => {}
         }
     }
+    for line in body {
+        let t: Vec<&str> = line.split_whitespace().collect();
+        if let ["ndl", kv] = t.as_slice() {
+            if let Some(k) = kv.strip_prefix("base=").and_then(|v| v.parse::<usize>().ok()) {
+                net.ndl = Some(k);
+            }
+        }
+    }
+    if net.ndl.is_some() {
+        // an NDL network is flat: the root `^` (the entry type) and its submodules
+        net.mods.retain(|m| !m.0.contains('.'));
+    }
     let has = |net: &Net, p: &str| net.mods.iter().any(|m| m.0 == p);
     for line in body {
         let t: Vec<&str> = line.split_whitespace().collect();
@@ -180,7 +209,7 @@ fn parse(body: &[String]) -> Net {
                         direct = true;
                     }
                 }
-                let chan = if direct {
+                let chan = if direct || net.ndl.is_some() {
                     None
                 } else {
                     match (lat, jit) {
@@ -290,9 +319,19 @@ fn sh() -> std::sync::MutexGuard<'static, Shared> {
 }
 
 /// one canonical observation: `<time> <path of the active module> <what> <who> <peer> <args...>`
+/// the script name of the active module: the root of an NDL network has the empty path
+fn cur_path() -> String {
+    let p = current().path();
+    if p.as_str().is_empty() {
+        "^".to_string()
+    } else {
+        p.as_str().to_string()
+    }
+}
+
 fn obs(what: &str, who: &str, peer: &str, args: &[u64]) {
     let t = SimTime::now().as_nanos();
-    let path = current().path();
+    let path = cur_path();
     let mut l = format!("{t} {} {what} {who} {peer}", path.as_str());
     for a in args {
         write!(l, " {a}").unwrap();
@@ -335,6 +374,21 @@ fn step_sync(net: &Net, path: &str, st: &Step, ttl: u16, who: &str) {
                 send_in(msg, gate_o(dst).as_str(), Duration::from_nanos(*delay));
             }
         }
+        Step::Schedr(kind) => {
+            let x = des::runtime::random::<u64>();
+            obs("draw", who, "-", &[x]);
+            if ttl == 0 {
+                return;
+            }
+            let serial = {
+                let mut s = sh();
+                s.serial += 1;
+                s.serial
+            };
+            obs("sched", who, "-", &[*kind as u64, (ttl - 1) as u64, serial, x % 8]);
+            schedule_in(Message::default().kind(*kind).id(ttl - 1).with_content(serial), Duration::from_nanos(x % 8));
+        }
+        Step::Spin(_, _) => {}
         Step::Sig(name) => {
             obs("sig", who, "-", &[]);
             sem_of(path, name).add_permits(1);
@@ -452,6 +506,15 @@ fn spawn_task(net: Arc<Net>, path: String, tag: String, steps: Vec<Step>, ttl: u
                     let w = do_select(&tag, ds).await;
                     obs("sel", &tag, "-", &[w]);
                 }
+                Step::Spin(n, every) => {
+                    for i in 1..=*n {
+                        tokio::task::yield_now().await;
+                        if i % *every == 0 {
+                            let x = des::runtime::random::<u64>();
+                            obs("draw", &tag, "-", &[x]);
+                        }
+                    }
+                }
                 Step::Wait(name) => {
                     let sem = sem_of(&path, name);
                     if let Ok(p) = sem.acquire().await {
@@ -468,12 +531,15 @@ fn spawn_task(net: Arc<Net>, path: String, tag: String, steps: Vec<Step>, ttl: u
 
 struct Node {
     net: Arc<Net>,
-    ttl0: u16,
 }
 
 impl Node {
+    fn ttl0(&self) -> u16 {
+        let path = cur_path();
+        self.net.mods.iter().find(|m| m.0 == path).map(|m| m.1).unwrap_or(0)
+    }
     fn run_rule(&self, on: On, ttl: u16) {
-        let path = current().path().as_str().to_string();
+        let path = cur_path();
         let Some(rule) = self.net.rules.iter().find(|r| r.0 == path && r.1 == on) else { return };
         for st in &rule.2 {
             match st {
@@ -491,7 +557,7 @@ impl Node {
 impl Module for Node {
     fn reset(&mut self) {
         // called by `ModuleRef::reset` right after the runtime of the next incarnation has been built
-        let path = current().path().as_str().to_string();
+        let path = cur_path();
         {
             let mut s = sh();
             match s.incs.iter_mut().find(|x| x.0 == path) {
@@ -503,7 +569,7 @@ impl Module for Node {
     }
     fn at_sim_start(&mut self, _stage: usize) {
         obs("start", "H", "-", &[]);
-        self.run_rule(On::Start, self.ttl0);
+        let ttl0 = self.ttl0(); self.run_rule(On::Start, ttl0);
     }
     fn handle_message(&mut self, msg: Message) {
         let kind = msg.header().kind;
@@ -517,9 +583,60 @@ impl Module for Node {
     }
     fn at_sim_end(&mut self) -> Result<(), RuntimeError> {
         obs("end", "H", "-", &[]);
-        self.run_rule(On::End, self.ttl0);
+        let ttl0 = self.ttl0(); self.run_rule(On::End, ttl0);
         Ok(())
     }
+}
+
+/// The NDL description of an `ndl base=<k>` case: every submodule has its own type `T_<name>` (its gates), the
+/// first `k` submodules belong to the type `Base`, the entry type `Top` inherits `Base`, adds the other submodules
+/// and connects the gates of all links (channel-less)
+fn ndl_text(net: &Net, k: usize) -> String {
+    let subs: Vec<&String> = net.mods.iter().map(|m| &m.0).filter(|p| p.as_str() != "^").collect();
+    let k = k.min(subs.len());
+    let mut t = String::from("entry: Top\nmodules:\n");
+    for p in &subs {
+        let mut gates: Vec<String> = Vec::new();
+        for l in &net.links {
+            if l.src == **p && l.dst != "^" {
+                gates.push(gate_o(&l.dst));
+            }
+            if l.dst == **p && l.src != "^" {
+                gates.push(gate_i(&l.src));
+            }
+        }
+        if gates.is_empty() {
+            writeln!(t, "  T_{p}: {{}}").unwrap();
+        } else {
+            writeln!(t, "  T_{p}:\n    gates:").unwrap();
+            for g in gates {
+                writeln!(t, "    - {g}").unwrap();
+            }
+        }
+    }
+    if k == 0 {
+        writeln!(t, "  Base: {{}}").unwrap();
+    } else {
+        writeln!(t, "  Base:\n    submodules:").unwrap();
+        for p in &subs[..k] {
+            writeln!(t, "      {p}: T_{p}").unwrap();
+        }
+    }
+    writeln!(t, "  Top:\n    inherit: Base").unwrap();
+    if k < subs.len() {
+        writeln!(t, "    submodules:").unwrap();
+        for p in &subs[k..] {
+            writeln!(t, "      {p}: T_{p}").unwrap();
+        }
+    }
+    let cons: Vec<&Link> = net.links.iter().filter(|l| l.src != "^" && l.dst != "^").collect();
+    if !cons.is_empty() {
+        writeln!(t, "    connections:").unwrap();
+        for l in cons {
+            writeln!(t, "    - peers:\n      - {}/{}\n      - {}/{}", l.src, gate_o(&l.dst), l.dst, gate_i(&l.src)).unwrap();
+        }
+    }
+    t
 }
 
 struct RunOut {
@@ -546,14 +663,36 @@ fn simulate(net: &Arc<Net>, seed: u64) -> RunOut {
     let r = guarded(move || {
         let net = net2;
         let mut sim = Sim::new(());
-        for (path, ttl) in &net.mods {
-            sim.node(path.as_str(), Node { net: net.clone(), ttl0: *ttl });
-            if let Some(m) = sim.globals().get(&ObjectPath::from(path.as_str())) {
-                let id = m.id().0;
-                sh().ids.push((id, path.clone()));
+        if let Some(k) = net.ndl {
+            // the network comes from an NDL description: `transform` decides the order of the submodules, which
+            // is the order in which the modules are created, started and ended
+            let text = ndl_text(&net, k);
+            let def: des_net_utils::ndl::def::Def = match serde_yml::from_str(&text) {
+                Ok(d) => d,
+                Err(_) => return "err=ndl-yaml".to_string(),
+            };
+            let net3 = net.clone();
+            let mut reg = des::net::ndl::Registry::new().with_fallback(move || Node { net: net3.clone() });
+            if sim.nodes_from_ndl(&def, &mut reg).is_err() {
+                return "err=ndl-build".to_string();
+            }
+            let paths: Vec<ObjectPath> = sim.nodes().collect();
+            for p in paths {
+                if let Some(m) = sim.globals().get(&p) {
+                    let name = if p.as_str().is_empty() { "^".to_string() } else { p.as_str().to_string() };
+                    sh().ids.push((m.id().0, name));
+                }
+            }
+        } else {
+            for (path, _) in &net.mods {
+                sim.node(path.as_str(), Node { net: net.clone() });
+                if let Some(m) = sim.globals().get(&ObjectPath::from(path.as_str())) {
+                    let id = m.id().0;
+                    sh().ids.push((id, path.clone()));
+                }
             }
         }
-        for l in &net.links {
+        for l in net.links.iter().filter(|_| net.ndl.is_none()) {
             let o = sim.gate(l.src.as_str(), &gate_o(&l.dst));
             let i = sim.gate(l.dst.as_str(), &gate_i(&l.src));
             o.clone().connect(i, make_channel(l));
@@ -803,7 +942,14 @@ fn gen_steps(r: &mut Rng, out: &mut String, in_task: bool, peers: &[String], kin
                     write!(out, " spawn:{}", r.pick(tasks)).unwrap();
                 }
             }
-            8 | 9 => write!(out, " sleep:{}", r.pick(&DELAYS)).unwrap(),
+            8 | 9 => {
+                if r.chance(1, 4) {
+                    // a few cooperative yields: the task is re-queued at the end of every executor turn
+                    write!(out, " spin:{}:{}", r.range(1, 5), r.range(1, 2)).unwrap();
+                } else {
+                    write!(out, " sleep:{}", r.pick(&DELAYS)).unwrap();
+                }
+            }
             10 => write!(out, " wait:{}", r.pick(&["x", "y"])).unwrap(),
             _ => {
                 // select over 2-3 sleeps; mostly equal deadlines, so that the seeded start index decides
@@ -821,11 +967,20 @@ const RATES: [u64; 6] = [576_000_000_000, 288_000_000_000, 192_000_000_000, 115_
 
 /// one generated network (the lines between `case` and `end`)
 fn gen_case(r: &mut Rng, out: &mut String, noise: bool) {
-    let nmods = if noise { r.range(3, 9) } else { r.range(2, 6) } as usize;
+    // one case in six is built from an NDL description: a base type with 3-8 submodules, the entry type inherits
+    // it and adds 1-3 submodules of its own; every module draws at start and schedules by the draw, so the order in
+    // which NDL elaboration lists the submodules (= creation = start order) decides who draws what
+    let ndl = !noise && r.chance(1, 6);
+    let base = r.range(3, 8) as usize;
+    let nmods = if ndl { base + r.range(1, 3) as usize } else if noise { r.range(3, 9) as usize } else { r.range(2, 6) as usize };
+    if ndl {
+        writeln!(out, "ndl base={base}").unwrap();
+        writeln!(out, "mod ^ ttl={}", r.range(0, 2)).unwrap();
+    }
     let mut paths: Vec<String> = Vec::new();
     for i in 0..nmods {
         // some modules are children of earlier ones (module-tree order differs from creation order)
-        let p = if i > 0 && r.chance(1, 3) {
+        let p = if !ndl && i > 0 && r.chance(1, 3) {
             let parent = r.pick(&paths).clone();
             if parent.matches('.').count() < 2 {
                 format!("{parent}.n{i}")
@@ -867,7 +1022,7 @@ fn gen_case(r: &mut Rng, out: &mut String, noise: bool) {
     let mut peers: Vec<Vec<String>> = vec![Vec::new(); nmods];
     for (a, b) in &edges {
         for (s, d) in [(*a, *b), (*b, *a)] {
-            if r.chance(1, 6) {
+            if ndl || r.chance(1, 6) {
                 writeln!(out, "link {} {} direct", paths[s], paths[d]).unwrap();
             } else {
                 let jit = if restartable[d] { 0 } else { *r.pick(&JITS) };
@@ -879,6 +1034,9 @@ fn gen_case(r: &mut Rng, out: &mut String, noise: bool) {
         }
     }
     let kinds = r.range(2, 4);
+    if ndl && r.chance(1, 2) {
+        writeln!(out, "rule ^ start draw").unwrap();
+    }
     let ntasks = r.range(1, 4) as usize;
     let tasks: Vec<String> = (0..ntasks).map(|i| format!("t{i}")).collect();
     // tasks that only restartable modules spawn: `s0` = a select! the seeded start index decides (it runs again
@@ -894,10 +1052,13 @@ fn gen_case(r: &mut Rng, out: &mut String, noise: bool) {
     for (i, p) in paths.iter().enumerate() {
         let rs = restartable[i];
         let tl: &[String] = if rs { &rtasks } else { &tasks };
-        if rs || r.chance(4, 5) {
+        if rs || ndl || r.chance(4, 5) {
             write!(out, "rule {p} start").unwrap();
             if rs {
                 write!(out, " spawn:s0").unwrap();
+            }
+            if ndl || r.chance(1, 8) {
+                write!(out, " schedr:{}", r.range(1, kinds)).unwrap();
             }
             gen_steps(r, out, false, &peers[i], kinds, tl, false, rs);
             writeln!(out).unwrap();
